@@ -968,9 +968,11 @@ def concatenate_ds(datasets, axis=0, align=False, **kwargs):
         else:
             assert sorted(ds.keys()) == sorted(variables), "variables differ across datasets"
 
+    # the axis, by name or by position among the datasets' dimensions (not among each variable's)
+    axis_nm = datasets[0].axes[axis].name
+
     if align:
         # all dataset axes
-        axis_nm = datasets[0].axes[axis].name
         aligned_dims = [d for d in _get_dims(*datasets) if d != axis_nm]
         for d in aligned_dims:
             datasets = da.align(datasets, axis=d, strict=True, **kwargs)
@@ -979,7 +981,7 @@ def concatenate_ds(datasets, axis=0, align=False, **kwargs):
     dataset = Dataset()
     for v in variables:
         arrays = [ds[v] for ds in datasets]
-        array = concatenate(arrays, axis=axis, align=False, _no_check=align)
+        array = concatenate(arrays, axis=axis_nm, align=False, _no_check=align)
         dataset[v] = array
 
     return dataset
